@@ -248,6 +248,21 @@ def check(run: Run) -> None:
         if bad:
             run.finding("C04.h", "fixed_record_child_modified", "the fixed-shape child hook must not record a modification of its own", loc=FIXED)
 
+    with run.obligation("C04.i", "K1+K2", "the delta window of a set / dictionary is rolled by EVERY write at a new time (touch-only writes included), so the "
+                        "previous tick's added/removed bits are never readable as this tick's delta; every membership change of a dictionary stamps "
+                        "the key set's own modification time (shared with C05.b, C05.g)"):
+        from . import c05
+        sub = Run("C04", run.tier, run.tree, quiet=True)
+        c05.check(sub)
+        run.evaluations += sub.evaluations
+        run.count(1, "C04.i")
+        for f in sub.findings:
+            if f.rule in ("C05.b", "C05.g"):
+                run.finding("C04.i", f.key, f.message, f.loc)
+        for e in sub.errors:
+            if e.startswith(("C05.b:", "C05.g:")):
+                raise AnalysisError("model-mismatch", e)
+
 
 VARIANTS = [
     {"id": "a-rewind", "expect": "C04.a", "edits": [{"file": TYPES, "find": "if (modified_time <= last_modified_time) { return false; }", "replace": "if (modified_time == last_modified_time) { return false; }"}]},
